@@ -1,10 +1,9 @@
 // Standalone reproductions of the defects found by the C04 monitor.
 // Drop into /repo/embedded/store/ (package store_test) and run
 //   go test -vet=off -count=1 -run 'TestC04' ./embedded/store/
-// On the unchanged tree every test FAILS (TestC04InjectiveIndexBulkSlotsOverflow by a panic in the
-// indexing goroutine, so run it alone). With /verif/proposed/C04-store-fixes-combined.patch applied
-// the first five pass; TestC04CompactionStaleRead documents the open finding
-// index/compaction/ts-recedes-stale-read and keeps failing.
+// On the tree before the fixes every test FAILS (TestC04InjectiveIndexBulkSlotsOverflow by a panic in the
+// indexing goroutine, so run it alone); TestC04CompactionStaleRead fails up to commit 3daf8b3^ and passes
+// from 3daf8b3 on. With /verif/proposed/C04-store-fixes-combined.patch applied all pass.
 package store_test
 
 import (
@@ -216,7 +215,46 @@ func TestC04SnapshotHistoryRevisions(t *testing.T) {
 	}
 }
 
-// signature index/compaction/ts-recedes-stale-read (open finding)
+// no monitor signature (a hang, which the C04 monitor records as inconclusive): indexer wedged after a compaction
+//
+// restartIndex reopens the tree with tbtree.GetOptions(), which leaves out the flush callback that gives the
+// buffered-data budget back to the store (and the configured MaxBufferedDataSize): after a compaction the
+// budget is only ever taken, and once MaxGlobalBufferedDataSize bytes were indexed the indexer stalls for
+// good (WaitForIndexingUpto and Commit never return). A small budget shows it at once.
+func TestC04CompactionKeepsBufferedDataBudget(t *testing.T) {
+	o := c04Opts(1, 4)
+	o.WithIndexOptions(o.IndexOpts.WithMaxBufferedDataSize(1000).WithMaxGlobalBufferedDataSize(1000))
+	st, err := store.Open(t.TempDir(), o)
+	if err != nil {
+		t.Fatal(err)
+	}
+	defer st.Close()
+	for i := 0; i < 800; i++ {
+		c04Commit(t, st, nil, fmt.Sprintf("key%04d", i), "v")
+	}
+	if err := st.WaitForIndexingUpto(context.Background(), 800); err != nil {
+		t.Fatal(err)
+	}
+	for round := 1; round <= 3; round++ {
+		if err := st.FlushIndexes(0, true); err != nil {
+			t.Fatal(err)
+		}
+		if err := st.CompactIndexes(); err != nil {
+			t.Fatal(err)
+		}
+		for i := 0; i < 100; i++ {
+			c04Commit(t, st, nil, fmt.Sprintf("key%04d", i), fmt.Sprint(round))
+		}
+		ctx, cancel := context.WithTimeout(context.Background(), 30*time.Second)
+		err = st.WaitForIndexingUpto(ctx, st.LastCommittedTxID())
+		cancel()
+		if err != nil {
+			t.Fatalf("after %d compaction(s) indexing does not catch up any more (the buffered-data budget is never released): %v", round, err)
+		}
+	}
+}
+
+// signature index/compaction/ts-recedes-stale-read (fixed meanwhile in /repo by commit 3daf8b3)
 //
 // CompactIndexes reopens the index from the dump taken when the compaction started; what was
 // indexed meanwhile is dropped while WaitForIndexingUpto keeps answering from its old mark.
